@@ -18,7 +18,7 @@ pub fn def() -> PropDef {
 fn run(r: &mut Run) -> Result<(), MachineryError> {
     let t = r.tier;
     let k = t.pick(3, 4);
-    let indents: &[&str] = &["", "> ", "+ "];
+    let indents: &[&str] = &["", "> ", "> + "];
     let space = Space { name: "C16/refill".into(), menu: VOCAB.iter().map(|s| s.to_string()).collect(), max_len: k, desc: format!("paragraphs of 1..={} words x o1 x o2 as in the rule; indents {:?}", k, indents) };
     r.space(space, |seq, cx| {
         if seq.is_empty() {
